@@ -1,8 +1,356 @@
-//! C03 — not built yet.
+//! C03 — CKKS evaluation is correct within worst-case error; scale bookkeeping is exact
+//! (engine E2c: explicit-state exploration of CKKS operation programs, plus a direct enumeration
+//! of scales around the bounds the evaluator enforces).
+use crate::e2c::*;
 use crate::engine::*;
+use crate::he::*;
+use crate::refmodel::bigu::*;
+use heathcliff::*;
+use num_complex::Complex;
+use serde::{Deserialize, Serialize};
+use std::time::Duration;
 
-pub fn describe(_rep: &Report) {}
+pub fn describe(rep: &Report) {
+    rep.set_rule(
+        "E2c explicit-state exploration on the real CKKSEncoder/Encryptor/Evaluator: states = real ciphertext + shadow (complex slot vector, expected scale, \
+         a-priori slot-domain error bound); R0 = encryptions of slot vectors {0, (1,..), (-1.5,2), (i,-i), (2^10,2^-3), mixed complex} (quick tier: (-1.5,2), (2^10,2^-3) and the mixed vector; 0 and (1,..) at the largest scale only) \
+         at scales 2^10, 2^20, 2^30 (thorough: + 2^40) and 2^(bits(Q_0)-2); phase A = every program of depth <= 2 over {negate, square, relinearize (standard / all-power keys), \
+         rescale_to_next, mod_switch_to_next, to/from NTT, add, sub, multiply, add/sub/multiply_plain x 5 plain values x {scale of the ciphertext, 2^10, 2^20, 2^30} x \
+         {level of the ciphertext, another level}, add_many}, deduplicated by (level, size, representation, scale bits, shadow); phase B = closure of the abstract key \
+         (level, size, representation, floor(max(log2 scale,-40) / w)), w = 20 bits (quick) / 10 bits (thorough), to fixpoint, every (operation, abstract operand tuple) \
+         executed on witnesses. Judged per transition: acceptance of well-typed operand tuples, REQUIRED refusal of ill-typed ones (levels differ, scales differ by more \
+         than a relative 2^-52, product / switched / rescaled scale does not fit the level, non-NTT operand, size a+b-1 > 16, missing key power), scale of the result \
+         bit-identical to the IEEE expression (product; quotient by the dropped prime as f64; unchanged), size / level / representation / correction factor, \
+         is_valid_for, the three API forms byte-identical with untouched operands, and |decode(decrypt(result)) - shadow| <= a-priori bound whenever \
+         scale*(|shadow|+bound) < Q/2. Noise families: Zero (symmetric encryption with zero error and uniform c1, noiseless keys: the bound collapses to rounding terms, \
+         so a relative deviation of 2^-20 is far outside it) and Real. Section scale_bounds: single operations on ciphertexts whose scale field is set to m*2^e around \
+         every threshold (total modulus bits of the level and of the next level, one-ulp neighbourhoods for the closeness test, scales below 1, underflow). \
+         distinct_nontrivial = distinct concrete states + abstract states + scale_bounds cases.",
+    );
+    rep.assume("slot-domain error calculus of e2c.rs (upper bounds: fresh 21(2N+1)+(1+N)/2+1 coefficient units, key switching k*N*21*q_max/P+(1+N)/2+1 per step, rescale N*sum_{i<size}N^i/(2s'), multiplication M1e2+M2e1+e1e2)");
+    rep.assume("entropy scripted by hook H1, noise by hook H2; one secret key (real ternary) per parameter set and family");
+    rep.assume("Decryptor::decrypt and CKKSEncoder::{encode,decode} are the observation path (their own correctness is C01/C10's subject); the tolerance includes the decoder's double-precision conversion error");
+    rep.assume("operand pairs whose scales differ by one unit in the last place, and plaintext operands encoded for another level than the ciphertext, are outside the statement: either behaviour is admitted, a computed result is still checked");
+}
 
-pub fn sections(_cfg: &RunCfg) -> Vec<Box<dyn AnySection>> {
-    vec![]
+// ---------------------------------------------------------------------------------------------
+// parameter sets
+// ---------------------------------------------------------------------------------------------
+
+fn chains(cfg: &RunCfg) -> Vec<(&'static str, Vec<usize>)> {
+    vec![
+        ("4x30", vec![30, 30, 30, 30]),
+        ("40_30_30_40", vec![40, 30, 30, 40]),
+        ("60_20_59", vec![60, 20, 59]),
+        if cfg.thorough() { ("6x40", vec![40; 6]) } else { ("5x40", vec![40; 5]) },
+        // two primes: a single data level (nothing to switch to), key switching with the special prime only
+        ("50_40", vec![50, 40]),
+    ]
+}
+
+fn e2c_sections(cfg: &RunCfg) -> Vec<Box<dyn AnySection>> {
+    let th = cfg.thorough();
+    let mut v: Vec<Box<dyn AnySection>> = vec![];
+    let mut plan: Vec<(String, ParamSpec, Noise)> = vec![];
+    for (i, (name, bits)) in chains(cfg).into_iter().enumerate() {
+        for (j, n) in [4usize, 8].into_iter().enumerate() {
+            for fam in [Noise::Zero, Noise::Real] {
+                // quick tier: each chain with (N=4, one family) and (N=8, the other family)
+                let take = th || ((i + j) % 2 == 0) == (fam == Noise::Zero);
+                if take {
+                    let spec = ParamSpec::new(Scheme::CKKS, n, chain(n, &bits), 0);
+                    plan.push((format!("ckks_{}_n{}_{}", name, n, if fam == Noise::Zero { "zero" } else { "real" }), spec, fam));
+                }
+            }
+        }
+    }
+    let count = plan.len();
+    for (index, (name, spec, fam)) in plan.into_iter().enumerate() {
+        v.push(Box::new(E2cSection {
+            name,
+            spec,
+            fam,
+            oracles: Oracles { forms: true, value: true },
+            judged: vec!["accept", "refusal", "scale", "meta", "valid", "value", "forms"],
+            seed: cfg.seed,
+            msgs: if th { vec![0, 1, 2, 3, 4, 5] } else { vec![2, 4, 5] },
+            lgs: if th { vec![10, 20, 30, 40] } else { vec![10, 20, 30] },
+            big_scale: true,
+            depth: 2,
+            abstract_closure: true,
+            sclass_width: if th { 10.0 } else { 20.0 },
+            index,
+            count,
+        }));
+    }
+    v
+}
+
+// ---------------------------------------------------------------------------------------------
+// scale_bounds: single operations with the scale field set around every threshold
+// ---------------------------------------------------------------------------------------------
+
+#[derive(Serialize, Deserialize, Clone, Copy, Debug, PartialEq, Eq, Hash)]
+pub enum BOp {
+    Mul,
+    Square,
+    MulPlain,
+    ModSwitch,
+    Rescale,
+    Add,
+    Sub,
+    AddPlain,
+    SubPlain,
+}
+
+#[derive(Serialize, Deserialize, Clone, Debug, Hash)]
+pub struct BCase {
+    pub spec: ParamSpec,
+    pub level: usize,
+    pub op: BOp,
+    /// scale of the (first) ciphertext operand, f64 bits
+    pub x1: u64,
+    /// scale of the second operand (ciphertext or plaintext), f64 bits; unused for unary operations
+    pub x2: u64,
+}
+
+/// first prime = 1 (mod 2n) at or above `from`
+fn prime_from(n: usize, from: u64) -> u64 {
+    let m = 2 * n as u64;
+    let mut p = from - from % m + 1;
+    if p < from {
+        p += m;
+    }
+    while !is_prime_u64(p) {
+        p += m;
+    }
+    p
+}
+
+fn pw(e: i32) -> f64 {
+    2f64.powi(e)
+}
+
+fn bcases(cfg: &RunCfg) -> Vec<BCase> {
+    let n = 4usize;
+    let mut specs: Vec<ParamSpec> = chains(cfg).into_iter().map(|(_, bits)| ParamSpec::new(Scheme::CKKS, n, chain(n, &bits), 0)).collect();
+    // a chain whose dropped prime sits low in its bit range: between q*2^bits(Q') and 2^bits(Q) there is
+    // most of a binade of scales that pass the bound on the level but whose rescaled value does not on the next
+    let top = chain(n, &[30, 30, 30]);
+    specs.push(ParamSpec::new(Scheme::CKKS, n, vec![top[0], top[1], prime_from(n, 5 << 27), top[2]], 0));
+    specs.push(ParamSpec::new(Scheme::CKKS, n, vec![chain(n, &[40])[0], prime_from(n, 5 << 17), prime_from(n, 9 << 26), chain(n, &[35])[0]], 0));
+    let mants = [1.0f64, 1.5, 2.0 - f64::EPSILON];
+    let mut out = vec![];
+    for spec in specs {
+        let nlev = spec.q.len() - 1;
+        let bits: Vec<i32> = (0..nlev).map(|l| BigU::product(&spec.q[..nlev - l]).bits() as i32).collect();
+        for level in 0..nlev {
+            let b = bits[level];
+            let mut push = |op: BOp, x1: f64, x2: f64| {
+                if scale_fits(x1, b as usize) {
+                    out.push(BCase { spec: spec.clone(), level, op, x1: x1.to_bits(), x2: x2.to_bits() });
+                }
+            };
+            // products around 2^b
+            for e1 in [10, b / 2, b - 12] {
+                for d in -3..=1 {
+                    for m1 in mants {
+                        for m2 in mants {
+                            let (x1, x2) = (m1 * pw(e1), m2 * pw(b - e1 + d));
+                            if scale_fits(x2, b as usize) {
+                                push(BOp::Mul, x1, x2);
+                                push(BOp::MulPlain, x1, x2);
+                            }
+                        }
+                    }
+                }
+            }
+            for e in [b / 2 - 1, b / 2, (b + 1) / 2, b / 2 + 1] {
+                for m in [1.0, 1.5, 2.0 - f64::EPSILON, std::f64::consts::SQRT_2, f64::from_bits(std::f64::consts::SQRT_2.to_bits() - 1), f64::from_bits(std::f64::consts::SQRT_2.to_bits() + 1)] {
+                    push(BOp::Square, m * pw(e), 0.0);
+                }
+            }
+            // switching down: thresholds of the next level
+            if level + 1 < nlev {
+                let bn = bits[level + 1];
+                let q = spec.q[nlev - level - 1];
+                let bq = 64 - q.leading_zeros() as i32;
+                for e in bn - 2..=bn + 1 {
+                    for m in mants {
+                        push(BOp::ModSwitch, m * pw(e), 0.0);
+                    }
+                }
+                for e in [10, b - 3, b - 2, b - 1, bn + bq - 2, bn + bq - 1, bn + bq] {
+                    for m in [1.0, 1.25, 1.5, 1.75, 2.0 - f64::EPSILON] {
+                        push(BOp::Rescale, m * pw(e), 0.0);
+                    }
+                }
+                // tiny scales: the quotient leaves the normal range / underflows to zero
+                for x in [pw(-1000), f64::MIN_POSITIVE, pw(-1060)] {
+                    push(BOp::Rescale, x, 0.0);
+                    push(BOp::ModSwitch, x, 0.0);
+                }
+            } else {
+                push(BOp::ModSwitch, pw(10), 0.0);
+                push(BOp::Rescale, pw(10), 0.0);
+            }
+            // products that underflow
+            for (x1, x2) in [(pw(-600), pw(-600)), (pw(-1000), pw(-60)), (pw(-500), pw(-500))] {
+                push(BOp::Mul, x1, x2);
+                push(BOp::MulPlain, x1, x2);
+                push(BOp::Square, x1, 0.0);
+            }
+            // closeness of scales
+            for x1 in [pw(20), 1.5 * pw(30), pw(b - 2), f64::from_bits(pw(20).to_bits() - 1), 1.5, pw(-1), 1.25 * pw(-20), pw(-60)] {
+                for op in [BOp::Add, BOp::Sub, BOp::AddPlain, BOp::SubPlain] {
+                    for k in [0u64, 1, 2, 3, 1 << 20, 1 << 40] {
+                        push(op, x1, f64::from_bits(x1.to_bits() + k));
+                    }
+                    push(op, x1, f64::from_bits(x1.to_bits() - 1));
+                    push(op, x1, f64::from_bits(x1.to_bits() - 2));
+                    push(op, x1, 2.0 * x1);
+                    push(op, x1, 0.5 * x1);
+                    push(op, x1, x1 * pw(-30));
+                }
+            }
+        }
+    }
+    out
+}
+
+fn bcheck(c: &BCase, seed: u64) -> CaseOut {
+    let spec = &c.spec;
+    env_real(seed, h64(&("c03-bounds", spec)));
+    let kit = match guard(|| Kit::new(spec)) {
+        Ok(Ok(k)) => k,
+        _ => return CaseOut::skip("parameter set not accepted"),
+    };
+    let levels = kit.levels();
+    if c.level >= levels.len() {
+        return CaseOut::skip("no such level");
+    }
+    let bits: Vec<usize> = levels.iter().map(|l| BigU::product(&kit.moduli_at(l)).bits()).collect();
+    let (x1, x2) = (f64::from_bits(c.x1), f64::from_bits(c.x2));
+    if !scale_fits(x1, bits[c.level]) {
+        return CaseOut::skip("operand scale outside the bound of its own level");
+    }
+    let encoder = CKKSEncoder::new(kit.ctx.clone());
+    let slots = spec.n / 2;
+    let vals: Vec<Complex<f64>> = (0..slots).map(|i| Complex::new(1.0 + i as f64, 0.5)).collect();
+    let ev = &kit.eval;
+    // operands on the requested level (scale 2^20 fits every level of every chain used here)
+    let built = guard(|| {
+        let pt = encoder.encode_c64_array_new(&vals, None, pw(20));
+        let mut a = kit.enc.encrypt_new(&pt);
+        let mut b = kit.enc.encrypt_new(&pt);
+        for _ in 0..c.level {
+            ev.mod_switch_to_next_inplace(&mut a);
+            ev.mod_switch_to_next_inplace(&mut b);
+        }
+        let p = encoder.encode_c64_array_new(&vals, Some(levels[c.level]), pw(20));
+        (a, b, p)
+    });
+    let (mut a, mut b, mut p) = match built {
+        Ok(t) => t,
+        Err(e) => return CaseOut::fail(format!("bounds:setup:{}", panic_class(&e)), "operands at scale 2^20 on every level", e),
+    };
+    a.set_scale(x1);
+    let has_next = c.level + 1 < levels.len();
+    let qlast = *kit.moduli_at(&levels[c.level]).last().unwrap();
+    // model: (must accept?, must refuse?, expected scale, expected level)
+    let two = matches!(c.op, BOp::Mul | BOp::MulPlain | BOp::Add | BOp::Sub | BOp::AddPlain | BOp::SubPlain);
+    if two {
+        if !scale_fits(x2, bits[c.level]) {
+            return CaseOut::skip("operand scale outside the bound of its own level");
+        }
+        b.set_scale(x2);
+        p.set_scale(x2);
+    }
+    let (verdict, exp_scale, exp_level, why): (u8, f64, usize, &str) = match c.op {
+        BOp::Mul | BOp::MulPlain => {
+            let s = x1 * x2;
+            if scale_fits(s, bits[c.level]) { (0, s, c.level, "") } else { (2, s, c.level, "product scale does not fit the level") }
+        }
+        BOp::Square => {
+            let s = x1 * x1;
+            if scale_fits(s, bits[c.level]) { (0, s, c.level, "") } else { (2, s, c.level, "squared scale does not fit the level") }
+        }
+        BOp::ModSwitch => {
+            if !has_next {
+                (2, x1, c.level, "last level")
+            } else if scale_fits(x1, bits[c.level + 1]) {
+                (0, x1, c.level + 1, "")
+            } else {
+                (2, x1, c.level + 1, "scale does not fit the next level")
+            }
+        }
+        BOp::Rescale => {
+            let s = x1 / qlast as f64;
+            if !has_next {
+                (2, s, c.level, "last level")
+            } else if scale_fits(s, bits[c.level + 1]) {
+                (0, s, c.level + 1, "")
+            } else {
+                (2, s, c.level + 1, "rescaled scale does not fit the next level")
+            }
+        }
+        BOp::Add | BOp::Sub | BOp::AddPlain | BOp::SubPlain => match screl(x1, x2) {
+            ScRel::Equal => (0, x1, c.level, ""),
+            ScRel::Border => (1, x1, c.level, "scales one ulp apart"),
+            ScRel::Differ => (2, x1, c.level, if differ_reason(x1, x2) == "scales-differ" { "scales differ" } else { "scales differ below 1" }),
+        },
+    };
+    let res = guard(|| match c.op {
+        BOp::Mul => ev.multiply_new(&a, &b),
+        BOp::Square => ev.square_new(&a),
+        BOp::MulPlain => ev.multiply_plain_new(&a, &p),
+        BOp::ModSwitch => ev.mod_switch_to_next_new(&a),
+        BOp::Rescale => ev.rescale_to_next_new(&a),
+        BOp::Add => ev.add_new(&a, &b),
+        BOp::Sub => ev.sub_new(&a, &b),
+        BOp::AddPlain => ev.add_plain_new(&a, &p),
+        BOp::SubPlain => ev.sub_plain_new(&a, &p),
+    });
+    let cls = |x: f64, b: usize| -> &'static str {
+        let l = x.log2();
+        if l >= b as f64 { "at-or-above" } else if l >= b as f64 - 1.0 { "top-bit" } else { "below" }
+    };
+    let shape = format!("{:?}", c.op);
+    let detail = format!("level {} of {}, x1 = {:e} (2^{:.9}), x2 = {:e} (2^{:.9}), modulus bits per level {:?}, dropped prime {}", c.level, levels.len(), x1, x1.log2(), x2, x2.log2(), bits, qlast);
+    match (verdict, res) {
+        (2, Err(e)) => CaseOut::pass(true, h64(&(shape, c.level, "refused", panic_class(&e))), 1),
+        (2, Ok(r)) => CaseOut::fail(
+            format!("bounds:{shape}:{}:accepted", why.replace(' ', "-")),
+            format!("refused: {why} (result scale would be {:e} = 2^{:.9}); {detail}", exp_scale, exp_scale.log2()),
+            format!("computed: scale {:e} (2^{:.9}) on level {:?}", r.scale(), r.scale().log2(), levels.iter().position(|l| l == r.parms_id())),
+        ),
+        (1, Err(_)) => CaseOut::pass(false, h64(&(shape, "lenient-refused")), 1),
+        (0, Err(e)) => CaseOut::fail(format!("bounds:{shape}:refused:{}", panic_class(&e)), format!("computed with scale {:e}; {detail}", exp_scale), e),
+        (_, Ok(r)) => {
+            let lv = levels.iter().position(|l| l == r.parms_id());
+            if r.scale().to_bits() != exp_scale.to_bits() {
+                return CaseOut::fail(format!("bounds:{shape}:scale"), format!("scale {:e} (bits {:016x}); {detail}", exp_scale, exp_scale.to_bits()), format!("scale {:e} (bits {:016x})", r.scale(), r.scale().to_bits()));
+            }
+            if lv != Some(exp_level) || r.correction_factor() != 1 || !r.is_ntt_form() {
+                return CaseOut::fail(format!("bounds:{shape}:meta"), format!("level {exp_level}, NTT form, factor 1"), format!("level {:?} ntt={} cf={}", lv, r.is_ntt_form(), r.correction_factor()));
+            }
+            CaseOut::pass(true, h64(&(shape, c.level, "computed", cls(exp_scale, bits[exp_level]))), 1)
+        }
+        _ => unreachable!(),
+    }
+}
+
+pub fn sections(cfg: &RunCfg) -> Vec<Box<dyn AnySection>> {
+    let seed = cfg.seed;
+    let cases = bcases(cfg);
+    let mut v: Vec<Box<dyn AnySection>> = vec![E1::new(
+        "scale_bounds",
+        "N=4, chains {4x30, (40,30,30,40), (60,20,59), 5x40|6x40, (50,40), (30,30,low 30,30), (40,low 20,low 30,35)} x every level x {multiply, multiply_plain: x1*x2 with exponents summing to bits(Q)-3..+1 and mantissas {1, 1.5, 2-ulp}; square around 2^(bits/2); mod_switch / rescale around bits(Q_next) and bits(Q_next)+bits(q_last); add, sub, add_plain, sub_plain with scales 0,1,2,3,2^20,2^40 ulps apart, halved, doubled}",
+        cases.into_iter(),
+        move |c| bcheck(c, seed),
+    )
+    .deadline(Duration::from_secs(20))
+    .share(0.3)];
+    v.extend(e2c_sections(cfg));
+    v
 }
